@@ -1427,7 +1427,14 @@ def random_elem(rng, name):
     attrs = rng.sample(["foo", "bar", "ns::baz"], rng.randint(0 if trait != "FromAttributes" else 1, 3))
     base = random_struct(rng, name)
     fields = [f for f in base["fields"] if not f["flatten"]][:3] or [field("only")]
-    return elem_desc(name, trait, fields, attrs, forward=fwd, magic=magic, rename_all=base["rename_all"], allow_unknown=base["allow_unknown"],
+    sup = None
+    if trait == "FromVariant" and rng.random() < 0.4:
+        sup = rng.sample(SHAPE_WORDS, rng.randint(1, 3))
+    aw = "attrs" in magic and fwd not in (None, []) and rng.random() < 0.3
+    for f in fields:
+        if not f["skip"] and rng.random() < 0.1:
+            f["skip_false"] = True
+    return elem_desc(name, trait, fields, attrs, forward=fwd, magic=magic, supports=sup, attrs_with=aw, rename_all=base["rename_all"], allow_unknown=base["allow_unknown"],
                      cdefault=base["cdefault"], cpost=base["cpost"])
 
 
